@@ -25,12 +25,13 @@ TECH = ("explicit TLA+ L2 spec model-checked with TLC (safety + liveness) + spec
         "code + impl->spec TLC trace validation of recorded executions against the L2 spec and the TLA+ property monitors")
 
 CHECKS = [
-    ("C01", "JoinLike, Race, Merge, Zip, Chain, WaitUntil, Groups, CoStream",
+    ("C01", "JoinLike, Race, Merge, Zip, Chain, WaitUntil, Groups, CoStream, Nest",
      "no lost wake-ups: parked / mid-poll / progress-at-quiescence obligations over every recorded execution, incl. fresh parent waker per poll, "
-     "stale and repeated wakes, wakes from other threads (thread mode: hang detection at quiescence), one level of nesting.", "7 (C01), 2, 5, 6"),
-    ("C02", "JoinLike, Race, Merge, Zip, Chain, WaitUntil, Groups, CoStream",
+     "stale and repeated wakes, wakes from other threads (thread mode: hang detection at quiescence), one level of nesting; plus the core of the "
+     "sub-waker protocol as an inductive invariant discharged by Apalache (specs/apalache/ReadinessProto.tla: unbounded polls and wake-ups, N <= 5).", "0, 7 (C01), 2, 5, 6"),
+    ("C02", "JoinLike, Race, Merge, Zip, Chain, WaitUntil, Groups, CoStream, Nest",
      "exactly-once ownership: drop ledger (children, values, canaries) over executions with cancellation at every point and a panic injected at any child poll.", "7 (C02)"),
-    ("C03", "JoinLike, Race, Merge, Zip, Chain, WaitUntil, Groups, CoStream",
+    ("C03", "JoinLike, Race, Merge, Zip, Chain, WaitUntil, Groups, CoStream, Nest",
      "poll discipline: no child poll after Ready/None, outside an owner's poll, after the final result (incl. one more poll after it where the type guards itself).", "7 (C03), 9"),
     ("C04", "JoinLike", "join: positional outputs, resolves exactly in the poll in which the last child resolves; zero children.", "7 (C04)"),
     ("C05", "JoinLike", "try_join: first observed error short-circuits in the same poll, nothing polled afterwards, sibling values dropped; Ok positional.", "7 (C05)"),
@@ -62,7 +63,7 @@ def main():
                    source_commits=[], add_only=True),
         engines=[dict(name="tla-l2-monitors", path="tools/check.py", serves_properties=[c[0] for c in CHECKS],
                       kind_free_text="TLC model checking of implementation-shaped TLA+ specifications (specs/JoinLike, Race, Merge, Zip, Chain, WaitUntil, "
-                                     "Groups, CoStream on specs/L2Env) with TLA+ property monitors (specs/Monitors) as invariants, liveness under fairness; "
+                                     "Groups, CoStream, Nest on specs/L2Env) with TLA+ property monitors (specs/Monitors) as invariants, liveness under fairness; "
                                      "TLC-exported behaviours replayed on the real code by the Rust harness; recorded executions validated by TLC against the "
                                      "monitors (TraceMon) and against the L2 specs (Trace_<Module>)")],
         checks=[],
